@@ -17,7 +17,10 @@
      transfers_of sg      grouping of a segment sequence into transfers
                           (id, data, complete)
      complete_of ts       the complete transfers as (id, data)
-     queued c ops         the bundles given to send_bundle_data while open
+     queued c ops         the bundles ACCEPTED by send_bundle_data: given while
+                          the endpoint was open and not terminating (once
+                          _in_term is set the call raises RuntimeError and
+                          queues nothing: C01_ex_send_while_terminating)
      bundle_of q id       the id-th queued bundle (ids count from 1)
      deliver_spec h       the receiver specified as a fold over the frames it
                           acted on: after the first SESS_INIT a START segment
@@ -402,6 +405,17 @@ Proof.
   - rewrite EB. constructor; [exact WC|]. apply Forall_map.
     apply wf_msgs_forallb. vm_compute. reflexivity.
 Qed.
+
+(* a send_bundle_data call after the endpoint entered the terminating state is
+   refused (RuntimeError), queues nothing and consumes no transfer id *)
+Definition ex_ops_term : list op :=
+  [OStart; ORx ex_hello_B; OSend [1]; OTerm 3; OSend [2;2]].
+Example C01_ex_send_while_terminating :
+  queued ex_cA ex_ops_term = [[1]]
+  /\ send_ids (trace (run ex_cA ex_ops_term)) = [1]
+  /\ last (trace (run ex_cA ex_ops_term)) EClosed = EExc EX_RUNTIME
+  /\ map fst (pend_start (run ex_cA ex_ops_term)) = [1].
+Proof. vm_compute. repeat split; reflexivity. Qed.
 
 (* the zero-segment-size run: the peer announces segment MRU 0 *)
 Definition ex_hello_mru0 : bytes :=
